@@ -7,7 +7,8 @@
 //	import "sync"            -> import sync ".../verifrt/vsync"
 //	import "sync/atomic"     -> import atomic ".../verifrt/vatomic"
 //	go f(a, b)               -> { f0, a0, a1 := f, a, b; vsched.GoLib(pos, func(){ f0(a0, a1) }) }
-//	close(ch)                -> vsched.ChanPoint(ch, true); close(ch)
+//	close(ch)                -> vsched.ChanClose(ch)
+//	ch <- v, <-ch, x := <-ch -> vsched.ChanSend / ChanRecv / ChanRecv2 (modelled: a blocked goroutine parks in the scheduler)
 //	select { case <-ch: … }  -> vsched.ChanPoint(ch, false) before the statement
 //	net.Listen / net.Dial    -> vnet.Listen / vnet.Dial
 //	time.Now / time.Sleep    -> vsched.Now / vsched.Sleep
@@ -125,7 +126,14 @@ func Build(o Options) (string, Stats, error) {
 			if err := os.MkdirAll(filepath.Dir(out), 0o755); err != nil {
 				return "", st, err
 			}
-			if err := os.WriteFile(out, buf.Bytes(), 0o644); err != nil {
+			data := buf.Bytes()
+			if r.generic && !bytes.Contains(data, []byte("//go:build")) {
+				// the modelled channel operations are generic functions; the
+				// repository's go.mod says go 1.15, so the file gets its own
+				// language version (the //line directives keep positions right)
+				data = append([]byte("//go:build go1.18\n\n"), data...)
+			}
+			if err := os.WriteFile(out, data, 0o644); err != nil {
 				return "", st, err
 			}
 			replace[filepath.Join(dir, n)] = out
@@ -167,6 +175,7 @@ type rewriter struct {
 	mapFields map[string]bool
 	st        *Stats
 	needSched bool
+	generic   bool // calls to generic shim functions were inserted
 	needNet   bool
 	tmp       int
 }
@@ -357,21 +366,37 @@ func (r *rewriter) stmt(s ast.Stmt) []ast.Stmt {
 			if id, ok := c.Fun.(*ast.Ident); ok && id.Name == "close" && len(c.Args) == 1 {
 				r.needSched = true
 				r.st.ChanPoints++
-				return []ast.Stmt{&ast.ExprStmt{X: call("vsched", "ChanPoint", c.Args[0], ast.NewIdent("true"))}, s}
+				r.generic = true
+				return []ast.Stmt{&ast.ExprStmt{X: call("vsched", "ChanClose", c.Args[0])}}
 			}
 		}
 		if u, ok := s.X.(*ast.UnaryExpr); ok && u.Op == token.ARROW {
 			r.needSched = true
 			r.st.ChanPoints++
-			return []ast.Stmt{&ast.ExprStmt{X: call("vsched", "ChanPoint", u.X, ast.NewIdent("false"))}, s}
+			r.generic = true
+			return []ast.Stmt{&ast.ExprStmt{X: call("vsched", "ChanRecv", u.X)}}
 		}
 	case *ast.SendStmt:
 		r.needSched = true
 		r.st.ChanPoints++
-		return []ast.Stmt{&ast.ExprStmt{X: call("vsched", "ChanPoint", s.Chan, ast.NewIdent("true"))}, s}
+		r.funcLitsInExpr(s.Value)
+		r.generic = true
+		return []ast.Stmt{&ast.ExprStmt{X: call("vsched", "ChanSend", s.Chan, s.Value)}}
 	case *ast.AssignStmt:
 		for _, e := range s.Rhs {
 			r.funcLitsInExpr(e)
+		}
+		if len(s.Rhs) == 1 {
+			if u, ok := s.Rhs[0].(*ast.UnaryExpr); ok && u.Op == token.ARROW {
+				r.needSched = true
+				r.st.ChanPoints++
+				fn := "ChanRecv"
+				if len(s.Lhs) == 2 {
+					fn = "ChanRecv2"
+				}
+				r.generic = true
+				s.Rhs[0] = call("vsched", fn, u.X)
+			}
 		}
 	case *ast.DeclStmt:
 		ast.Inspect(s, func(n ast.Node) bool {
